@@ -399,9 +399,9 @@ bool AnalyserModel::areEquivalentVariables(const VariablePtr &variable1,
     // means that we can safely cache the result of a call to that utility. In
     // turn, this means that we can speed up any feature (e.g., code generation)
     // that also relies on that utility. When it comes to the key for the cache,
-    // we use the Cantor pairing function with the address of the two variables
-    // as parameters, thus ensuring the uniqueness of the key (see
-    // https://en.wikipedia.org/wiki/Pairing_function#Cantor_pairing_function).
+    // we use the (ordered) pair of the addresses of the two variables. (A single
+    // integer computed with the Cantor pairing function is not unique: the
+    // product wraps around in 64-bit arithmetic.)
 
     auto v1 = reinterpret_cast<uintptr_t>(variable1.get());
     auto v2 = reinterpret_cast<uintptr_t>(variable2.get());
@@ -412,7 +412,7 @@ bool AnalyserModel::areEquivalentVariables(const VariablePtr &variable1,
         v1 = v1 - v2;
     }
 
-    auto key = ((v1 + v2) * (v1 + v2 + 1) >> 1U) + v2;
+    auto key = std::make_pair(v1, v2);
     auto cacheKey = mPimpl->mCachedEquivalentVariables.find(key);
 
     if (cacheKey != mPimpl->mCachedEquivalentVariables.end()) {
